@@ -6,7 +6,7 @@ Space : per side every pair (sts, mts) of selections - each ALL/REMAINING/NONE o
         (i) single side through PortsSemanticsCfg(...).match();
         (ii) end-to-end through PortsCfg + Builder.build on a model that has exactly those ports,
         every side-case paired with fixed representatives of the other side (accepting MTS,
-        accepting STS, no ports) ; thorough additionally crosses one representative per
+        accepting STS, no ports), and the SAME selection pair on both sides ; thorough additionally crosses one representative per
         (verdict, reason, assignment) class of both sides.
 Oracle: vf.refmodels.portcfg.resolve_side (REJECT / ACCEPT(mapping) / EITHER).
 """
@@ -155,6 +155,17 @@ def e2e_cases(thorough):
                     yield {'kind': 'e2e', 'prov': prov, 'req': ports, 'inj': inj, 'psel': psel, 'rsel': [sts, mts]}
 
 
+def equal_selection_cases(thorough):
+    """The SAME selection pair used for the provides and the requires side (names of both sides in it)."""
+    own_p, own_r = universes(thorough)
+    universe = own_p[:2] + own_r[:2] + ['u']
+    for sts, mts in itertools.product(R.selections(universe), repeat=2):
+        for prov in R.subsets(own_p[:2]):
+            for req in R.subsets(own_r[:2]):
+                for inj in ([], ['i']):
+                    yield {'kind': 'e2e', 'prov': prov, 'req': req, 'inj': inj, 'psel': [sts, mts], 'rsel': [sts, mts]}
+
+
 def class_cross_cases(thorough):
     """One representative per (verdict, reason/mapping) class of each side, crossed."""
     own_p, own_r = universes(thorough)
@@ -179,7 +190,7 @@ def class_cross_cases(thorough):
 def work(job):
     which, idx, nslots, thorough = job
     part = Partial()
-    gen = {'side': side_cases, 'e2e': e2e_cases, 'cross': class_cross_cases}[which](thorough)
+    gen = {'side': side_cases, 'e2e': e2e_cases, 'cross': class_cross_cases, 'equal': equal_selection_cases}[which](thorough)
     for k, case in enumerate(gen):
         if k % nslots != idx:
             continue
@@ -207,7 +218,8 @@ def work(job):
 
 def explore(ctx):
     th = ctx.thorough
-    jobs = [('side', i, 8, th) for i in range(8)] + [('e2e', i, 48, th) for i in range(48)]
+    jobs = [('side', i, 8, th) for i in range(8)] + [('e2e', i, 48, th) for i in range(48)] + \
+           [('equal', i, 16, th) for i in range(16)]
     if th:
         jobs += [('cross', i, 16, th) for i in range(16)]
     for part in pmap(work, jobs):
